@@ -45,6 +45,7 @@ type procCase struct {
 	HoldExit  bool `json:"hold_exit"` // hook: hold every worker at exit-token-returned until all workers are there
 	Reps      int  `json:"reps"`
 	MaxProcs  int  `json:"maxprocs"`
+	PanicLast bool `json:"panic_last"` // the last submitted operation panics (documented: turned into an error result)
 }
 
 type mapCall struct {
@@ -60,11 +61,15 @@ type childJob struct {
 }
 
 type op struct {
-	id  int
-	err bool
+	id    int
+	err   bool
+	panic bool
 }
 
 func (o op) Operation() (interface{}, error) {
+	if o.panic {
+		panic(fmt.Sprintf("op %d panics", o.id))
+	}
 	if o.err {
 		return nil, fmt.Errorf("op %d failed", o.id)
 	}
@@ -134,8 +139,13 @@ func runProc(c procCase) {
 		ops := make([]concurrent.Operator, c.Ops)
 		for i := range ops {
 			o := op{id: i, err: c.ErrEvery > 0 && i%c.ErrEvery == 0}
+			if c.PanicLast && i == c.Ops-1 {
+				o = op{id: i, panic: true}
+			}
 			ops[i] = o
-			if o.err {
+			if o.panic {
+				want[fmt.Sprintf("err:concurrent: processor panic: op %d panics", i)]++
+			} else if o.err {
 				want[fmt.Sprintf("err:op %d failed", i)]++
 			} else {
 				want[fmt.Sprintf("val:%d", i)]++
@@ -308,6 +318,7 @@ func TestProcessor(t *testing.T) {
 			if rapid.Bool().Draw(t, "errors") {
 				c.ErrEvery = rapid.IntRange(1, 5).Draw(t, "err-every")
 			}
+			c.PanicLast = c.Ops > 0 && rapid.IntRange(0, 3).Draw(t, "panic-last") == 0
 			return c
 		},
 		Check: func(c procCase) *vlib.Failure { return runChild(childJob{Proc: &c}) },
@@ -321,6 +332,9 @@ func TestProcessor(t *testing.T) {
 			}
 			if c.ErrEvery > 0 && c.Ops > 0 {
 				l = append(l, "with-errors")
+			}
+			if c.PanicLast {
+				l = append(l, "last-operation-panics")
 			}
 			return l
 		},
